@@ -318,4 +318,35 @@ def parse (c : Chars) (la pre : Str) (input : Str) : Option Tree :=
 /-- what a names-only Newick string preserves: names, shape, sibling order -/
 def namesOnly (t : Tree) : Tree := canonWith (fun _ => []) t
 
+/-! ## what a Newick string with lengths and attributes preserves -/
+
+/-- writer options of the round-trip theorem: node names on, `:` as both separators -/
+def stdW (la : Str) (al : List Str) (pre : Str) : WOpts :=
+  { interName := true, lengthAttr := la, lengthSep := [':'], attrList := al, attrPrefix := pre, attrSep := [':'] }
+
+/-- the listed attributes the writer emits for a node (the truthy ones) -/
+def listed (al : List Str) (a : Attrs) : List Str := al.filter fun k => truthy (getAttr a k)
+
+/-- attributes of the node read back: the length (non-root nodes, when `length_attr` is given),
+    then the listed truthy attributes in list order -/
+def imgAttrs (la : Str) (al : List Str) (r : Bool) (a : Attrs) : Attrs :=
+  (listed al a).foldl (fun acc k => dset acc k (getAttr a k))
+    (if la ≠ [] ∧ r = false then [(la, getAttr a la)] else [])
+
+mutual
+/-- the tree read back; `r = tree.is_root` of the start node -/
+def img (la : Str) (al : List Str) (r : Bool) : Tree → Tree
+  | .node _ n a cs => .node 0 n (imgAttrs la al r a) (imgL la al cs)
+def imgL (la : Str) (al : List Str) : List Tree → List Tree
+  | [] => []
+  | t :: ts => img la al false t :: imgL la al ts
+end
+
+/-- the length attribute is a positive integer (or no length attribute is exported) -/
+def LenNode (la : Str) (u : Tree) : Prop := la = [] ∨ ∃ i : Int, 0 < i ∧ getAttr u.attrs la = .int i
+
+/-- listed attribute names are non-empty and quote-free; listed truthy values are quote-free strings -/
+def AttrNode (q : Char) (al : List Str) (u : Tree) : Prop :=
+  ∀ k ∈ al, k ≠ [] ∧ q ∉ k ∧ (truthy (getAttr u.attrs k) = true → ∃ v, getAttr u.attrs k = .str v ∧ q ∉ v)
+
 end Newick
